@@ -303,3 +303,308 @@ def c06(seed, tier):
             sets.append(set_str("In.Deep.D_" + m, s))
         cases.append(case(sets))
     return {"scenarios": [scenario("c06", [struct("T", fields, cases)])]}
+
+
+# ----------------------------------------------------------------------------- random structs (C07, C08, C09, C15-C17, C19)
+
+def _str_of_runes(n, unit=b"a"):
+    return unit * n
+
+
+class FieldGen:
+    """A field with documented markers and a lattice of values exercising each rule both ways."""
+
+    def __init__(self, rng):
+        self.rng = rng
+
+    def numeric(self, name):
+        rng = self.rng
+        tn = rng.choice(NUMERIC_TYPES)
+        t = basic(tn)
+        doc = []
+        bounds = []
+        ops = rng.sample(["gt", "gte", "lt", "lte"], rng.randint(1, 2))
+        for op in ops:
+            if t["vk"] == "int":
+                lo, hi = int_range(t)
+                b = rng.choice([0, 1, 3, 10, 100, max(lo, -5), min(hi, 120)])
+                doc.append("//govalid:%s=%d" % (op, b))
+                bounds.append(b)
+            else:
+                b = rng.choice([0.0, 0.5, -2.5, 10.0, 100.0])
+                doc.append("//govalid:%s=%s" % (op, repr(b)))
+                bounds.append(b)
+        if rng.random() < 0.4:
+            doc.append("//govalid:required")
+            bounds.append(0)
+        if rng.random() < 0.2 and t["vk"] == "int":
+            doc.append("//govalid:enum=1,2,3")
+            bounds += [1, 2, 3]
+        if t["vk"] == "int":
+            vals = [lambda p, z=z: set_int(p, z) for z in int_lattice(t, [int(b) for b in bounds])]
+        elif t["vk"] == "float32":
+            vals = [lambda p, z=z: set_f32(p, z) for z in float_lattice("float32", [float(b) for b in bounds])]
+        else:
+            vals = [lambda p, z=z: set_f64(p, z) for z in float_lattice("float64", [float(b) for b in bounds])]
+        return fld(name, doc, t), vals
+
+    def string(self, name):
+        rng = self.rng
+        doc = []
+        cand = [b"", b"a", b"ab", "é€".encode(), b"\xff\xfe", b"abcdefghijkl"]
+        for m in rng.sample(["minlength", "maxlength", "length"], rng.randint(0, 2)):
+            n = rng.choice([0, 1, 2, 3, 5, 8])
+            doc.append("//govalid:%s=%d" % (m, n))
+            cand += [b"a" * max(0, n - 1), b"a" * n, b"a" * (n + 1), "é".encode() * n]
+        if rng.random() < 0.5:
+            fm = rng.choice(list(FORMAT_MEMBERS))
+            doc.append("//govalid:" + fm)
+            cand += FORMAT_MEMBERS[fm][:3] + FORMAT_NONMEMBERS[fm][:3]
+        if rng.random() < 0.3:
+            doc.append("//govalid:enum=red, green,blue")
+            cand += [b"red", b"green", b"Blue", b" green"]
+        if rng.random() < 0.4:
+            doc.append("//govalid:required")
+        if not doc:
+            doc.append("//govalid:required")
+        return fld(name, doc, basic("string")), [lambda p, z=z: set_str(p, z) for z in cand]
+
+    def coll(self, name):
+        rng = self.rng
+        t = rng.choice([SLICE, SLICE_INT, MAP, MAP_INT, CHAN])
+        doc = []
+        ns = []
+        for m in rng.sample(["minitems", "maxitems"], rng.randint(1, 2)):
+            n = rng.choice([0, 1, 2, 4])
+            doc.append("//govalid:%s=%d" % (m, n))
+            ns.append(n)
+        if rng.random() < 0.4:
+            doc.append("//govalid:required")
+        vals = [lambda p: set_coll(p, True, 0)] + [lambda p, k=k: set_coll(p, False, k) for k in sorted({0, 1, 2, 3, 5} | set(ns))]
+        return fld(name, doc, t), vals
+
+    def nilable(self, name):
+        t = self.rng.choice([POINTER, IFACE, ANY, ERROR, FUNC])
+        return fld(name, ["//govalid:required"], t), [lambda p: set_nilable(p, True), lambda p: set_nilable(p, False)]
+
+    def boolean(self, name):
+        return fld(name, ["//govalid:required"], basic("bool")), [lambda p: set_bool(p, True), lambda p: set_bool(p, False)]
+
+    def plain(self, name):
+        t = self.rng.choice([basic("int"), basic("string"), SLICE, basic("bool")])
+        return fld(name, [], t), []
+
+    def any(self, name):
+        k = self.rng.choices(["numeric", "string", "coll", "nilable", "boolean", "plain"], [4, 4, 2, 1, 1, 1])[0]
+        return getattr(self, k)(name)
+
+
+def rand_struct(rng, name, nfields, depth, prefix="", counter=None):
+    """Returns (fields, [(path, value makers)])"""
+    fg = FieldGen(rng)
+    counter = counter if counter is not None else [0]
+    fields = []
+    lattices = []
+    for _ in range(nfields):
+        counter[0] += 1
+        fname = "F%d" % counter[0]
+        if depth > 0 and rng.random() < 0.25:
+            sub, sublat = rand_struct(rng, name, rng.randint(1, 3), depth - 1, prefix + fname + ".", counter)
+            fields.append(fld(fname, [], nested=sub))
+            lattices += sublat
+        else:
+            f, vals = fg.any(fname)
+            fields.append(f)
+            if vals:
+                lattices.append((prefix + fname, vals))
+    return fields, lattices
+
+
+def cases_from_lattices(rng, lattices, max_cases, exhaustive_bits=0):
+    """Each field independently through its lattice; then random combinations."""
+    cases = [case([])]
+    if not lattices:
+        return cases
+    base = [vals[-1] for _, vals in lattices]
+    # one-field-at-a-time sweep
+    for i, (path, vals) in enumerate(lattices):
+        for v in vals:
+            sets = [b(p) for (p, _), b in zip(lattices, base)]
+            sets[i] = v(path)
+            cases.append(case(sets))
+    # all 2^k subsets of {first, last} choices for the first k fields
+    k = min(exhaustive_bits, len(lattices))
+    for mask in range(1 << k):
+        sets = []
+        for i, (path, vals) in enumerate(lattices):
+            if i < k:
+                sets.append((vals[0] if (mask >> i) & 1 else vals[-1])(path))
+            else:
+                sets.append(rng.choice(vals)(path))
+        cases.append(case(sets))
+    while len(cases) < max_cases:
+        cases.append(case([rng.choice(vals)(path) for path, vals in lattices]))
+    return cases[:max_cases]
+
+
+def c07(seed, tier):
+    rng = random.Random(seed)
+    n = 40 if tier == "quick" else 200
+    per = 60 if tier == "quick" else 200
+    scen = []
+    for i in range(n):
+        fields, lat = rand_struct(rng, "T", rng.randint(1, 12), 2 if i % 3 == 0 else 0)
+        cases = cases_from_lattices(rng, lat, per, exhaustive_bits=min(5, len(lat)))
+        cases.append(case([], nil=True))
+        scen.append(scenario("c07s%d" % i, [struct("T", fields, cases)]))
+    scen += known_shapes("c07k")
+    return {"scenarios": scen}
+
+
+def known_shapes(prefix):
+    """Declarations in the classes of the open known findings (kept in the corpus so that the
+    classification itself is exercised on every run)."""
+    s = basic("string")
+    out = []
+    # D7: marker on an inline-struct field is propagated with the outer path
+    out.append(scenario(prefix + "d7", [struct("T", [
+        fld("Outer", ["//govalid:required"], nested=[fld("Inner", [], s)])],
+        [case([]), case([set_str("Outer.Inner", b"x")])])]))
+    # D8: struct-level marker together with a nested struct: duplicate declarations
+    out.append(scenario(prefix + "d8", [struct("T", [
+        fld("A", [], s), fld("N", [], nested=[fld("X", [], s)])],
+        [case([])], gendoc=["//govalid:required"])]))
+    # D9: the same field name inside two nested structs: duplicate legacy alias
+    out.append(scenario(prefix + "d9", [struct("T", [
+        fld("P", [], nested=[fld("Name", ["//govalid:required"], s)]),
+        fld("Q", [], nested=[fld("Name", ["//govalid:required"], s)])],
+        [case([])])]))
+    # D10: A.BC and AB.C share one error variable
+    out.append(scenario(prefix + "d10", [struct("J", [
+        fld("A", [], nested=[fld("BC", ["//govalid:required"], s)]),
+        fld("AB", [], nested=[fld("C", ["//govalid:required"], s)])],
+        [case([]), case([set_str("A.BC", b"x")]), case([set_str("AB.C", b"x")]), case([set_str("A.BC", b"x"), set_str("AB.C", b"y")])])]))
+    # D20: XMin + length and X + minlength produce the same variable name
+    out.append(scenario(prefix + "d20", [struct("T", [
+        fld("XMin", ["//govalid:length=2"], s), fld("X", ["//govalid:minlength=1"], s)],
+        [case([])])]))
+    return out
+
+
+def c09(seed, tier):
+    rng = random.Random(seed)
+    s = basic("string")
+    i64 = basic("int")
+    scen = []
+    # struct-level versus per-field placement of the same markers (flat structs)
+    marker_sets = [["//govalid:required"], ["//govalid:minlength=2"], ["//govalid:gt=0", "//govalid:required"],
+                   ["//govalid:email"], ["//govalid:ipv4"], ["//govalid:maxitems=2"], ["//govalid:enum=a,b"],
+                   ["//govalid:required", "//govalid:maxlength=3", "//govalid:alpha"], ["//govalid:uuid", "//govalid:numeric"],
+                   ["//govalid:lte=10", "//govalid:minitems=1", "//govalid:length=1"]]
+    aux_named, nslice = named("Tags", SLICE)
+    types = [("S", s), ("I", i64), ("F", basic("float64")), ("B", basic("bool")), ("Sl", SLICE), ("M", MAP), ("P", POINTER),
+             ("Fn", FUNC), ("Ar", array(2)), ("U8", basic("uint8")), ("Tg", nslice), ("C", basic("complex128")), ("O", OTHER_STRUCT)]
+    vals = {"S": [b"", b"a", b"abcd", b"a@b.cd", b"1.2.3.4", b"12"], "I": [0, 5, 11, -1], "F": [0.0, 0.5, 11.0], "U8": [0, 3, 200],
+            "Sl": [None, 0, 1, 3], "M": [None, 0, 3], "Tg": [None, 0, 3]}
+
+    def mk_cases(prefix=""):
+        cs = [case([])]
+        for k in range(6):
+            sets = []
+            for nm, t in types:
+                p = prefix + nm
+                if nm in ("S",):
+                    sets.append(set_str(p, vals["S"][k % len(vals["S"])]))
+                elif nm in ("I", "U8"):
+                    sets.append(set_int(p, vals[nm][k % len(vals[nm])]))
+                elif nm == "F":
+                    sets.append(set_f64(p, f64bits(vals["F"][k % 3])))
+                elif nm == "B":
+                    sets.append(set_bool(p, k % 2 == 0))
+                elif nm in ("Sl", "M", "Tg"):
+                    v = vals[nm][k % len(vals[nm])]
+                    sets.append(set_coll(p, v is None, v or 0))
+                elif nm in ("P", "Fn"):
+                    sets.append(set_nilable(p, k % 2 == 1))
+                elif nm == "C":
+                    sets.append(set_complex(p, k % 2 == 0))
+            cs.append(case(sets))
+        return cs
+
+    for k, ms in enumerate(marker_sets):
+        if any("gt=" in m or "lte=" in m for m in ms):
+            tl = [x for x in types if x[0] != "C"]          # gt/lte on complex fields: undocumented combination, does not compile
+        else:
+            tl = types
+        if any("enum" in m for m in ms):
+            # enum with non-numeric items on numeric fields, or on non-basic types (isCustom): not a documented use, does not compile
+            tl = [x for x in tl if x[0] in ("S", "B", "C")]
+        cs = mk_cases()
+        cs = [case([x for x in c["sets"] if x["path"] in {n for n, _ in tl}]) for c in cs]
+        a = struct("A", [fld(nm, [], t) for nm, t in tl], cs, gendoc=ms)
+        b = struct("B", [fld(nm, ms, t) for nm, t in tl], cs)
+        scen.append(scenario("c09sl%d" % k, [a, b], aux=[aux_named, OTHER_STRUCT_AUX]))
+    # multi-name fields, also nested, also struct-level
+    scen.append(scenario("c09mn", [
+        struct("T", [fld(["A", "B", "C"], ["//govalid:required", "//govalid:minlength=2"], s),
+                     fld(["X", "Y"], ["//govalid:gt=1"], i64),
+                     fld("N", [], nested=[fld(["P", "Q"], ["//govalid:maxlength=1"], s)])],
+               [case([]), case([set_str("A", b"ok"), set_str("B", b""), set_str("C", b"okk"), set_int("X", 5), set_int("Y", 0),
+                                set_str("N.P", b"a"), set_str("N.Q", b"toolong")]),
+                case([set_str("A", b"ok"), set_str("B", b"ok"), set_str("C", b"o"), set_int("X", 1), set_int("Y", 2), set_str("N.Q", b"")])]),
+        struct("U", [fld(["A", "B"], [], s), fld(["K", "L"], [], i64)],
+               [case([]), case([set_str("A", b"x"), set_int("L", 3)]), case([set_str("A", b"x"), set_str("B", b"y"), set_int("K", 1), set_int("L", 3)])],
+               gendoc=["//govalid:required"])]))
+    # type ( ... ) groups mixing struct and non-struct specs, marker-less structs, spec-level markers
+    g1 = struct("G1", [fld("A", ["//govalid:required"], s)], [case([]), case([set_str("A", b"x")])])
+    g2 = struct("G2", [fld("Z", [], i64)], [])
+    g3 = struct("G3", [fld("X", [], s), fld("Y", ["//govalid:minlength=2"], s)], [case([]), case([set_str("X", b"x"), set_str("Y", b"yy")])],
+                specdoc=["//govalid:required"])
+    g4 = struct("G4", [fld("K", ["//govalid:gt=0"], i64)], [case([]), case([set_int("K", 1)])])
+    scen.append(scenario("c09grp", [g1, g2, g3, g4], grouped=True, groupaux=["Mid int", "Fn func()", "Last []string"]))
+    # embedded fields
+    scen.append(scenario("c09emb", [
+        struct("T", [fld([], [], T("Base", "TNamed TStructT", "opaque")), fld("A", [], s), fld([], ["//govalid:required"], T("*Base2", "TPointer", "nilable"))],
+               [case([]), case([set_str("A", b"x")])], gendoc=["//govalid:required"])],
+        aux=["type Base struct{ ID int }", "type Base2 struct{ K int }"]))
+    # fields before/after nested structs, deep nesting, many fields
+    many = [fld("F%d" % k, ["//govalid:required"] + (["//govalid:minlength=2"] if k % 7 == 0 else []), s) for k in range(100)]
+    scen.append(scenario("c09many", [struct("T", many, [case([]), case([set_str("F%d" % k, b"ab" if k % 2 else b"a") for k in range(100)])])]))
+    deep = [fld("A", ["//govalid:required"], s),
+            fld("N", [], nested=[fld("B", ["//govalid:required"], s),
+                                 fld("M", [], nested=[fld("C", ["//govalid:gt=2", "//govalid:lte=9"], i64), fld("D", ["//govalid:email"], s)]),
+                                 fld("E", ["//govalid:maxitems=1"], SLICE)]),
+            fld("Z", ["//govalid:required"], s)]
+    scen.append(scenario("c09deep", [struct("T", deep, [
+        case([]), case([set_str("A", b"a"), set_str("N.B", b"b"), set_int("N.M.C", 5), set_str("N.M.D", b"a@b.cd"), set_coll("N.E", False, 1), set_str("Z", b"z")]),
+        case([set_str("A", b"a"), set_int("N.M.C", 10), set_str("N.M.D", b"nope"), set_coll("N.E", False, 2)])])]))
+    for i in range(10 if tier == "quick" else 60):
+        fields, lat = rand_struct(rng, "T", rng.randint(2, 8), 2)
+        scen.append(scenario("c09r%d" % i, [struct("T", fields, cases_from_lattices(rng, lat, 25, 3))]))
+    scen += known_shapes("c09k")
+    return {"scenarios": scen}
+
+
+def c08(seed, tier):
+    rng = random.Random(seed)
+    scen = []
+    n = 30 if tier == "quick" else 150
+    for i in range(n):
+        structs = []
+        nst = rng.randint(1, 3)
+        for k in range(nst):
+            fields, lat = rand_struct(rng, "T%d" % k, rng.randint(1, 40 if i % 5 == 0 else 10), rng.choice([0, 0, 1, 3]))
+            # repeated leaf names are avoided by construction (unique counters); struct-level markers only on flat structs
+            gendoc = []
+            if rng.random() < 0.3 and not any("nested" in f for f in fields):
+                gendoc = rng.choice([["//govalid:required"], ["//govalid:maxlength=50"], ["//govalid:gte=0", "//govalid:required"]])
+                # struct-level numeric markers: only when every field is an integer/float/string... (complex excluded by construction)
+            structs.append(struct("T%d" % k, fields, cases_from_lattices(rng, lat, 6, 2), gendoc=gendoc, file=rng.choice(["x", "y"])))
+        scen.append(scenario("c08s%d" % i, structs))
+    # parameters needing escaping
+    s = basic("string")
+    scen.append(scenario("c08esc", [struct("T", [
+        fld("A", ['//govalid:enum=a"b,c\\d, e f'], s), fld("B", ["//govalid:enum=`,'"], s)],
+        [case([]), case([set_str("A", b'a"b'), set_str("B", b"`")]), case([set_str("A", b"c\\d"), set_str("B", b"'")])])]))
+    scen += known_shapes("c08k")
+    return {"scenarios": scen}
